@@ -262,6 +262,71 @@ def rebuild_fn(ex, names):
     return len(ways)
 
 
+XPROC_CHILD = r'''
+import pickle, sys
+from pytableaux.lang import Argument, LexicalAbc, Operator, Quantifier
+data = pickle.loads(sys.stdin.buffer.read())
+out = []
+for kind, ident, blob in data:
+    try:
+        if kind == 'Argument':
+            fresh = Argument(ident)
+        elif kind == 'Operator':
+            fresh = Operator[ident]
+        elif kind == 'Quantifier':
+            fresh = Quantifier[ident]
+        else:
+            fresh = LexicalAbc(ident)
+        hash(fresh)
+        y = pickle.loads(blob)
+        ok = (y == fresh) and hash(y) == hash(fresh) and (y in {fresh}) and type(y) is type(fresh)
+        out.append((ok, repr(y)))
+    except Exception as e:
+        out.append((False, type(e).__name__ + ': ' + str(e)))
+sys.stdout.buffer.write(pickle.dumps(out))
+'''
+
+
+def cross_process_pickle(items):
+    '''Pickle here, load in a fresh interpreter with another hash seed, where an
+    equal item is built first (from the ident): the loaded item must be equal
+    to it, hash alike and be found in a set holding it.  Returns a list of
+    (item, message) for the failures.'''
+    import pickle
+    data = []
+    for x in items:
+        tn = type(x).__name__
+        if tn == 'Argument':
+            data.append(('Argument', x.argstr(), pickle.dumps(x)))
+        elif tn in ('Operator', 'Quantifier'):
+            data.append((tn, x.name, pickle.dumps(x)))
+        else:
+            data.append((tn, x.ident, pickle.dumps(x)))
+    env = dict(os.environ)
+    env['PYTHONHASHSEED'] = '4242'
+    env.pop('ITEM_CACHE_SIZE', None)
+    r = subprocess.run([sys.executable, '-W', 'ignore', '-c', XPROC_CHILD], input=pickle.dumps(data),
+                       env=env, capture_output=True, timeout=300)
+    if r.returncode != 0:
+        raise RuntimeError(f'cross-process child failed: {r.stderr.decode()[-400:]}')
+    res = pickle.loads(r.stdout)
+    return [(x, msg) for x, (ok, msg) in zip(items, res) if not ok]
+
+
+def xproc_items():
+    from pytableaux.lang import (Argument, Atomic, Constant, Operator, Predicate,
+                                 Quantifier, Variable)
+    a, b = Constant(0, 0), Constant(1, 2)
+    x = Variable(0, 0)
+    F, G = Predicate(0, 0, 1), Predicate(1, 3, 2)
+    A, B = Atomic(0, 0), Atomic(2, 1)
+    return [A, B, a, b, x, F, G, Predicate.Identity, Predicate.Existence, F(a), G(a, b),
+            Predicate.Identity(a, b), ~A, A & B, Operator.Possibility(A) | ~B,
+            Quantifier.Existential(x, F(x)), Quantifier.Universal(x, Operator.Conditional(G(x, a), F(x))),
+            Operator.Negation, Operator.Biconditional, Quantifier.Universal,
+            Argument('Fm:VxFx'), Argument('b:Cab:a'), Argument('a')]
+
+
 def immutability():
     'concrete: attribute assignment / deletion raise for every type'
     from pytableaux.lang import (Argument, Atomic, Constant, Operator, Predicate,
@@ -363,6 +428,12 @@ def worker(part, tier, cache_size):
         out['immutability_items'] = n
         for b in ibad:
             out['bad'].append(dict(error=b, label='immutability', kind='immutability', picks=[], witness={}))
+        xitems = xproc_items()
+        out['cross_process_pickles'] = len(xitems)
+        for x, msg in cross_process_pickle(xitems):
+            out['bad'].append(dict(error=f'pickled {x!r} loaded in another interpreter: {msg}',
+                                   label=f'cross-process pickle {type(x).__name__}', kind='xpickle',
+                                   picks=[], witness={}, item=repr(x)))
     elif part.startswith('items'):
         _, k, nparts = part.split(':')
         names = list(shapes())
@@ -508,6 +579,8 @@ def run(ctx):
             key = f'C14|{b.get("kind")}|{"~".join(b.get("names", []))}|{short}'
             if b.get('kind') in ('rebuild', 'pickle'):
                 key = f'C14|{b["kind"]}|{b["names"][0]}|{short.split(" raised")[0][:60]}'
+            if b.get('kind') == 'xpickle':
+                key = f'C14|xpickle|{b["label"].split()[-1]}'
             if key in seen:
                 continue
             seen.add(key)
@@ -523,6 +596,8 @@ def run(ctx):
                     items='all pairs of 20 item shapes, sentences to depth 2, all coordinates symbolic',
                     rebuild=f'construction histories of length <= {2 if ctx.quick else 3}, '
                             f'ITEM_CACHE_SIZE in {list(sizes)}',
+                    cross_process_pickle='23 items of all types and arguments, loaded in a fresh interpreter with '
+                                         'another hash seed that built an equal item first (concrete)',
                     arguments='pairs of arguments, conclusion + premises (total premises <= 2 quick, <= 4 thorough), letters with symbolic coordinates'),
         solver=dict(queries=queries, solver_time_s=round(st_time, 2)),
         functions_executed=['Lexical.orderitems/hashitem/identitem', 'rich comparison wrappers',
@@ -544,6 +619,9 @@ def replay(data):
     if kind == 'immutability':
         n, bad = immutability()
         return bool(bad), f'immutability: {bad}'
+    if kind == 'xpickle':
+        bad = cross_process_pickle(xproc_items())
+        return bool(bad), f'cross-process pickle: {[(repr(x), m) for x, m in bad][:3]}'
     if int(data.get('cache_size', 1000)) != int(os.environ.get('ITEM_CACHE_SIZE', 1000) or 0):
         env = dict(os.environ)
         env['ITEM_CACHE_SIZE'] = str(data['cache_size'])
